@@ -43,8 +43,10 @@ def ops_roundtrip(rng, d, which, cats=DR.CATS):
     if rng.random() < 0.2 and not D.has_sq(d):
         ops.append({"op": "Mul", "t": 1, "a": 1, "f": rng.choice([Q(2), Q(F(1, 2))]), "side": "l"})
     if which == "reload":
+        ops.append({"op": "Doc", "a": 1})
         ops.append({"op": "Reload", "t": 3, "a": 1, "via": rng.choice(["dict", "string", "file"])})
         ops.append({"op": "Read", "a": 3, "which": "toJson"})
+        ops.append({"op": "Doc", "a": 3})
         # interchangeable with the original under +, *, zero(), copy(), re-serialisation
         for _ in range(rng.randint(1, 4)):
             r = rng.randrange(7)
